@@ -527,6 +527,8 @@ func (k *KVStore) scanCommon(cursor uint64, expr string, count int, f func(e sto
 				// Invalid cursor
 				return 0, nil
 			}
+			// cf is the coefficient of the next existing table now.
+			return k.tableSize * cf, nil
 		}
 		// The next table
 		return k.tableSize * (cf + 1), nil
